@@ -2,6 +2,7 @@
 // `assign ..`, `forcescript ..`, `show items 1`) plus
 //   cvcvals   print, for every variable, every component: index, active flag, current value (hex)
 //             (a component that was not evaluated at this step keeps the value of its last evaluation)
+//   errbits c0 c1 ..   one std::thread per code calls cvm::set_error_bits(code) repeatedly; prints the resulting error word
 //   endcase   print ENDCASE, destroy the module and the proxy (several scenarios in one process)
 // Reads scenarios from stdin or argv[1].
 #include <cstdio>
@@ -41,6 +42,22 @@ struct c12_session : public vsim_session {
             << vs_hex(c->cvcs[i]->value()) << "\n";
         }
       }
+      return true;
+    }
+    if (cmd == "errbits") {
+      cvm::clear_error();
+      std::vector<int> codes;
+      for (auto &w : a) codes.push_back(atoi(w.c_str()));
+      std::vector<std::thread> ths;
+      for (size_t t = 0; t < codes.size(); t++) {
+        ths.emplace_back([&, t]() {
+          vsim_proxy::my_thread_id = (int) t;
+          for (int rep = 0; rep < 50; rep++) cvm::set_error_bits(codes[t]);
+        });
+      }
+      for (auto &th : ths) th.join();
+      o << "ERRBITS " << cvm::get_error() << "\n";
+      cvm::clear_error();
       return true;
     }
     if (cmd == "endcase") {
